@@ -27,6 +27,8 @@ type C12Case struct {
 	ReaderFirst bool     `json:"readerFirst,omitempty"` // the reader is created before the file is added to the set
 	Touch       bool     `json:"touch,omitempty"`       // positions of the surrounding files are looked up on the set before and between the renderings
 	Reuse       bool     `json:"reuse,omitempty"`       // file and reader were already used for a parse (file alone in a set) before the file is placed
+	ReuseCtx    bool     `json:"reuseCtx,omitempty"`    // with Reuse: the very same context served the first evaluation (file in no set yet) and serves the parse after placement
+	GiantPre    bool     `json:"giantPre,omitempty"`    // a first file of 2^31 bytes (a stand-in that only knows its length): base offsets beyond 32 bits
 	HugePre     int      `json:"hugePre,omitempty"`     // > 0: additionally a first file of that many bytes (positions beyond 16 bits)
 	G           *Grammar `json:"g,omitempty"`           // workload "grammar": a generated grammar
 	Toks        *C10Case `json:"toks,omitempty"`        // workload "tokens": a generated C10 token sequence (In is its source)
@@ -146,6 +148,8 @@ func genC12(t *rapid.T) interface{} {
 	c.ReaderFirst = rapid.IntRange(0, 2).Draw(t, "readerFirst") == 0
 	c.Touch = rapid.Bool().Draw(t, "touch")
 	c.Reuse = rapid.IntRange(0, 3).Draw(t, "reuse") == 0
+	c.ReuseCtx = rapid.Bool().Draw(t, "reuseCtx")
+	c.GiantPre = rapid.IntRange(0, 9).Draw(t, "giant") == 4
 	if rapid.IntRange(0, 7).Draw(t, "huge") == 3 {
 		c.HugePre = rapid.SampledFrom([]int{65530, 65535, 65536, 70000, 131072, 200000}).Draw(t, "hugeLen")
 	}
@@ -156,13 +160,21 @@ func genC12(t *rapid.T) interface{} {
 	return c
 }
 
+// giantFile is a file that only knows its length (2 GiB of content nobody looks at).
+type giantFile struct{ size, offset int }
+
+func (g *giantFile) Position(int) parsley.Position { return parsley.NilPosition }
+func (g *giantFile) Pos(i int) parsley.Pos         { return parsley.Pos(g.offset + i) }
+func (g *giantFile) Len() int                      { return g.size }
+func (g *giantFile) SetOffset(o int)               { g.offset = o }
+
 type c12Out struct {
 	Tree, ParseErr, Eval string
 	Calls, Nodes         int
 	Base                 int
 }
 
-func runC12(c *C12Case, pre, post [][]byte, readerFirst, touch, reuse bool) (o c12Out, err error) {
+func runC12(c *C12Case, pre, post [][]byte, readerFirst, touch, reuse, reuseCtx, giant bool) (o c12Out, err error) {
 	defer func() {
 		if r := recover(); r != nil {
 			if _, ok := r.(budgetExceeded); ok {
@@ -172,8 +184,13 @@ func runC12(c *C12Case, pre, post [][]byte, readerFirst, touch, reuse bool) (o c
 		}
 	}()
 	var fl []parsley.File
+	if giant {
+		fl = append(fl, &giantFile{size: 1 << 31})
+	}
+	preTotal := 0
 	for i, p := range pre {
 		fl = append(fl, text.NewFile(fmt.Sprintf("pre%d", i), p))
+		preTotal += len(normCRLF(p)) + 1
 	}
 	content := []byte(c.In)
 	if c.Lit != nil {
@@ -181,6 +198,7 @@ func runC12(c *C12Case, pre, post [][]byte, readerFirst, touch, reuse bool) (o c
 	}
 	f := text.NewFile("main", content)
 	var early *text.Reader
+	var shared *parsley.Context
 	if readerFirst || reuse {
 		early = text.NewReader(f) // e.g. examples/json benchmarks create the reader first
 	}
@@ -203,7 +221,14 @@ func runC12(c *C12Case, pre, post [][]byte, readerFirst, touch, reuse bool) (o c
 		default:
 			p0 = c12Workloads[c.Workload]
 		}
-		_, _ = parsley.Evaluate(parsley.NewContext(fs0, early), p0)
+		// (the same context is only used again when no position of the second parse can coincide
+		// with one of the first: its result cache is keyed by position)
+		if reuseCtx && !giant && preTotal >= len(content)+2 {
+			shared = parsley.NewContext(parsley.NewFileSet(), early)
+			_, _ = parsley.Evaluate(shared, p0)
+		} else {
+			_, _ = parsley.Evaluate(parsley.NewContext(fs0, early), p0)
+		}
 	}
 	newReader := func() *text.Reader {
 		if early != nil {
@@ -218,7 +243,15 @@ func runC12(c *C12Case, pre, post [][]byte, readerFirst, touch, reuse bool) (o c
 	// the slice handed to NewFileSet has spare capacity and is reused by the caller afterwards: the
 	// file set must not depend on it
 	fl = append(make([]parsley.File, 0, len(fl)+3), fl...)
-	fs := parsley.NewFileSet(fl...)
+	fs := parsley.NewFileSet()
+	if shared != nil {
+		fs = shared.FileSet()
+		for _, g := range fl {
+			fs.AddFile(g)
+		}
+	} else {
+		fs = parsley.NewFileSet(fl...)
+	}
 	var others []parsley.Pos
 	for _, g := range fl {
 		if g != parsley.File(f) {
@@ -280,6 +313,9 @@ func runC12(c *C12Case, pre, post [][]byte, readerFirst, touch, reuse bool) (o c
 		p = c12Workloads[c.Workload]
 	}
 	ctx := parsley.NewContext(fs, newReader())
+	if shared != nil {
+		ctx = shared
+	}
 	touchOther()
 	node, perr := parsley.Parse(ctx, p)
 	o.Tree = renderRel(node, o.Base)
@@ -328,7 +364,7 @@ func checkC12(ci interface{}, st *Stats) error {
 	} else if c12Workloads[c.Workload] == nil {
 		return Discard{"unknown workload"}
 	}
-	alone, err := runC12(c, nil, nil, false, false, false)
+	alone, err := runC12(c, nil, nil, false, false, false, false, false)
 	if err != nil {
 		return err
 	}
@@ -337,11 +373,14 @@ func checkC12(ci interface{}, st *Stats) error {
 		pre = append([][]byte{bytes.Repeat([]byte("x"), c.HugePre)}, pre...)
 		st.Class("preceded by more than 64 KiB")
 	}
-	placed, err := runC12(c, pre, c.Post, c.ReaderFirst, c.Touch, c.Reuse)
+	placed, err := runC12(c, pre, c.Post, c.ReaderFirst, c.Touch, c.Reuse, c.ReuseCtx, c.GiantPre)
 	if err != nil {
 		return err
 	}
 	wantBase := 1
+	if c.GiantPre {
+		wantBase += 1<<31 + 1
+	}
 	for _, p := range pre {
 		wantBase += len(normCRLF(p)) + 1
 	}
@@ -366,6 +405,12 @@ func checkC12(ci interface{}, st *Stats) error {
 	}
 	if c.Reuse {
 		st.Class("file and reader already used alone before placement")
+	}
+	if c.Reuse && c.ReuseCtx && !c.GiantPre {
+		st.Class("... where the same context may serve both parses")
+	}
+	if c.GiantPre {
+		st.Class("preceded by a file of 2^31 bytes")
 	}
 	if c.ReaderFirst {
 		st.Class("reader created before the file was placed")
